@@ -194,18 +194,30 @@ def r_falsy(P, R):
                         'the default exists to tell "no element" from an '
                         'element; an element that is empty or 0 (the '
                         'empty assignment of a constant) is false')
+        # a local that is a plain copy of an optional argument (`n =
+        # nvars`) is the argument under another name
+        alias_of = dict()
+        for n in au.walk_no_defs(fn):
+            if isinstance(n, ast.Assign) and len(
+                    n.targets) == 1 and isinstance(
+                        n.targets[0], ast.Name) and isinstance(
+                            n.value, ast.Name) and n.value.id in opt and \
+                    len(au.assignments_to(fn, n.targets[0].id)) <= 2:
+                alias_of[n.targets[0].id] = n.value.id
         n_opt += len(opt)
         n_get += len(got)
         for t, node in truth_contexts(fn):
             while isinstance(t, ast.UnaryOp) and isinstance(t.op, ast.Not):
                 t = t.operand
-            if isinstance(t, ast.Name) and (t.id in opt or t.id in got):
+            if isinstance(t, ast.Name) and (
+                    t.id in opt or t.id in got or t.id in alias_of):
                 if _default_idiom(t.id, node):
                     n_idiom += 1
                     continue
-                if t.id in opt:
-                    why = FALSY_RELEVANT.get((f.name, t.id))
-                    only = FALSY_ONLY.get((f.name, t.id))
+                if t.id in opt or t.id in alias_of:
+                    prm = alias_of.get(t.id, t.id)
+                    why = FALSY_RELEVANT.get((f.name, prm))
+                    only = FALSY_ONLY.get((f.name, prm))
                     if only is not None and R.prop not in only:
                         why = None
                     if why is None:
